@@ -321,3 +321,53 @@ func HarnessC03Empty() {
 	vAssert(err == nil, "loop-with-empty-bodies-renders-without-error")
 	vAssert(out == want, "body-once-per-pass-else-only-when-no-pass")
 }
+
+// HarnessC03Clauses: @for loops with an absent post or condition clause (the body advances the counter, or a
+// @breakIf ends the loop), with and without @else; nested loops that reuse the name of the loop around them.
+func HarnessC03Clauses() {
+	n := vInt64("n")
+	vAssume(n >= 0 && n <= 3)
+	hasElse := vChoice("else", 2) == 1
+	els := ""
+	if hasElse {
+		els = "@else<E>"
+	}
+	var src, want string
+	switch vChoice("shape", 5) {
+	case 0: // no post clause: the body advances the counter
+		src = "@for(i = 0; i < n; ){{ i = i + 1 }}[{{ i }}]" + els + "@end"
+		for i := int64(1); i <= n; i++ {
+			want += "[" + string([]byte{byte('0' + i)}) + "]"
+		}
+		if n == 0 && hasElse {
+			want = "<E>"
+		}
+	case 1: // no condition: it counts as true, so the @else body is never rendered
+		src = "@for(i = 0; ; i++)@breakIf(i == n)[{{ i }}]" + els + "@end"
+		for i := int64(0); i < n; i++ {
+			want += "[" + string([]byte{byte('0' + i)}) + "]"
+		}
+	case 2: // no post clause, a pass that prints nothing before @continueIf
+		src = "@for(i = 0; i < n; ){{ i = i + 1 }}@continueIf(i == 2)[{{ i }}]" + els + "@end"
+		for i := int64(1); i <= n; i++ {
+			if i != 2 {
+				want += "[" + string([]byte{byte('0' + i)}) + "]"
+			}
+		}
+		if n == 0 && hasElse {
+			want = "<E>"
+		}
+	case 3: // an inner @each reuses the outer loop's variable name
+		src = "@each(v in [1, 2])<@each(v in [7, 8]){{ v }}@end|{{ v }}:{{ loop.index }}>@end"
+		want = "<78|1:0><78|2:1>"
+	default: // an inner @for reuses the outer @for's counter name
+		src = "@for(i = 0; i < n; i++)[@for(i = 5; i < 7; i++){{ i }}@end|{{ i }}]@end"
+		for i := int64(0); i < n; i++ {
+			want += "[56|" + string([]byte{byte('0' + i)}) + "]"
+		}
+	}
+	out, err := EvaluateString(src, map[string]any{"n": n})
+	vCover("rendered")
+	vAssert(err == nil, "loop-renders-without-error")
+	vAssert(out == want, "passes-and-else-body-as-the-statement-says")
+}
